@@ -27,7 +27,10 @@ func (x *Exec) initHeapWF(name string, t types.Type, twoLevel bool) {
 	if body == "" || body == tTrue {
 		return
 	}
-	x.lateAxioms = append(x.lateAxioms, lateAxiom{heap: h, sort: "", term: fmt.Sprintf("(forall %s (! %s :pattern (%s)))", bind, body, sel)})
+	// only for objects / regions that exist at entry: the entry heap at
+	// not-yet-allocated references is the oracle for what callees under
+	// contract will allocate there, and must stay unconstrained
+	x.lateAxioms = append(x.lateAxioms, lateAxiom{heap: h, sort: "", term: fmt.Sprintf("(forall %s (! (=> (and (<= 0 r!w) (< r!w alloc0)) %s) :pattern (%s)))", bind, body, sel)})
 }
 
 type lateAxiom struct{ heap, sort, term string }
